@@ -170,12 +170,15 @@ def polyCase (thr : Nat) (key : String) (a : Array String) (r : Array String) : 
     let A ← P 0; let B ← P 1
     if A.length < B.length || B.isEmpty then pure { pre := false, spec := true } else
     if key == "karamidmul" && A.length + 1 != 2 * B.length then pure { pre := false, spec := true } else
-    pure (exact1 (← RP 0) (smulWindow A B (B.length - 1) (A.length - B.length + 1)))
+    let m := if key == "midmul" then Givaro.Model.Poly.midmul thr A B
+             else if key == "stdmidmul" then Givaro.Model.Poly.stdmidmul A B
+             else Givaro.Model.Poly.karamidmul thr A B
+    pure (exact1 (← RP 0) (smulWindow A B (B.length - 1) (A.length - B.length + 1)) (some m))
   | "pow" => do let A ← P 0; let n ← N 1; pure (exact1 (← RP 0) (spow A n.toNat) (some (Givaro.Model.Poly.pow thr A n.toNat)))
   | "powmod" => do
     let A ← P 0; let n ← N 1; let U ← P 2
     if (norm U).isEmpty || n < 0 then pure { pre := false, spec := true } else
-    pure (exact1 (← RP 0) (spowmod A n.toNat U))
+    pure (exact1 (← RP 0) (spowmod A n.toNat U) (some (Givaro.Model.Poly.powmod thr A n.toNat U)))
   -- division (B = 0 is outside the property)
   | "div" | "divin" => do
     let A ← P 0; let B ← P 1; let q ← RP 0
@@ -190,7 +193,8 @@ def polyCase (thr : Nat) (key : String) (a : Array String) (r : Array String) : 
   | "modin" => do
     let A ← P 0; let B ← P 1; let q ← RP 0
     if (norm B).isEmpty then pure { pre := false, spec := true } else
-    pure { spec := chkRem A B q.1 && degOk q }
+    let m := Givaro.Model.Poly.modin A B
+    pure { spec := chkRem A B q.1 && degOk q, model := eqv m q.1, info := renderPoly (norm m) }
   | "divmod" | "divmodin" => do
     let A ← P 0; let B ← P 1; let q ← RP 0; let rr ← RP 1
     if (norm B).isEmpty then pure { pre := false, spec := true } else
@@ -200,11 +204,16 @@ def polyCase (thr : Nat) (key : String) (a : Array String) (r : Array String) : 
   | "pdivmod" => do
     let A ← P 0; let B ← P 1; let q ← RP 0; let rr ← RP 1; let m ← r[4]? >>= FieldIO.parse
     if (norm B).isEmpty then pure { pre := false, spec := true } else
-    pure { spec := chkPdivmod A B q.1 rr.1 m && degOk q && degOk rr }
+    let md := Givaro.Model.Poly.pdivmod A B
+    pure { spec := chkPdivmod A B q.1 rr.1 m && degOk q && degOk rr,
+           model := eqv md.1 q.1 && eqv md.2.1 rr.1 && decide (md.2.2 = m),
+           info := renderPoly (norm md.1) ++ " " ++ renderPoly (norm md.2.1) ++ " " ++ FieldIO.render md.2.2 }
   | "pmod" => do
     let A ← P 0; let B ← P 1; let rr ← RP 0; let m ← r[2]? >>= FieldIO.parse
     if (norm B).isEmpty then pure { pre := false, spec := true } else
-    pure { spec := chkPmod A B rr.1 m && degOk rr }
+    let md := Givaro.Model.Poly.pmod A B
+    pure { spec := chkPmod A B rr.1 m && degOk rr, model := eqv md.1 rr.1 && decide (md.2 = m),
+           info := renderPoly (norm md.1) ++ " " ++ FieldIO.render md.2 }
   | "isdiv" => do
     let A ← P 0; let B ← P 1; let v ← r[0]? >>= parseHexInt
     pure { spec := (v != 0) == divides B A }
@@ -240,7 +249,9 @@ def polyCase (thr : Nat) (key : String) (a : Array String) (r : Array String) : 
   | "invmodunit" => do
     let A ← P 0; let B ← P 1; let u ← RP 0
     if !(coprime A B) || sdeg B < 1 then pure { pre := false, spec := true } else
-    pure { spec := chkInvmodUnit A B u.1 && degOk u }
+    let m := Givaro.Model.Poly.invmodunit thr (A.length + B.length + 2) A B
+    pure { spec := chkInvmodUnit A B u.1 && degOk u, model := (match m with | some g => eqv g u.1 | none => false),
+           info := match m with | some g => renderPoly (norm g) | none => "loop-did-not-finish" }
   | "modpowx" => do
     let A ← P 0; let l ← N 1
     if l < 0 then pure { pre := false, spec := true } else
@@ -283,6 +294,74 @@ def polyCase (thr : Nat) (key : String) (a : Array String) (r : Array String) : 
     let A ← P 0; let i ← N 1; let c ← r[0]? >>= FieldIO.parse
     if i < 0 then pure { pre := false, spec := true } else
     pure { spec := c = coeff A i.toNat, model := c = Givaro.Model.Poly.getEntry i.toNat A }
+  -- constructors / assignments
+  | "init0" => do pure (exact1 (← RP 0) ([] : List K))
+  | "initv" | "assignv" => do let v ← S 0; pure (exact1 (← RP 0) [v])
+  | "initl3" => do let x ← S 0; let y ← S 1; let z ← S 2; pure (exact1 (← RP 0) [x, y, z])
+  | "initdeg" => do let d ← N 0; pure (exact1 (← RP 0) (zeros d.toNat ++ [(1 : K)]))
+  | "initdv" | "assigndv" => do let d ← N 0; let v ← S 1; pure (exact1 (← RP 0) (zeros d.toNat ++ [v]))
+  | "assign" => do let A ← P 0; pure (exact1 (← RP 0) A (some (Givaro.Model.Poly.assign A)))
+  | "toscalar" | "convert" => do
+    let A ← P 0; let c ← r[0]? >>= FieldIO.parse
+    pure { spec := c = coeff A 0 }
+  | "observe2" => do
+    let A ← P 0
+    let mo ← r[0]? >>= parseHexInt; let un ← r[1]? >>= parseHexInt; let vl ← r[2]? >>= parseHexInt; let dg ← r[3]? >>= parseHexInt
+    let An := norm A
+    let valSpec : Int := match An.findIdx? (fun c => !(decide (c = 0))) with | some i => (i : Int) | none => -1
+    pure { spec := (mo != 0) == decide (An = [-(1 : K)]) && (un != 0) == decide (sdeg A = 0) && vl == valSpec && dg == sdeg A }
+  | "setentry" => do
+    let A ← P 0; let c ← S 1; let i ← N 2
+    if i < 0 then pure { pre := false, spec := true } else
+    let L := max A.length (i.toNat + 1)
+    let padded := (A ++ zeros L).take L
+    pure (exact1 (← RP 0) (padded.set i.toNat c))
+  | "modinv" | "modv" => do
+    let _A ← P 0; let v ← S 1
+    if v = 0 then pure { pre := false, spec := true } else pure (exact1 (← RP 0) ([] : List K))
+  | "inv" | "invin" => do
+    let A ← P 0
+    if sdeg A != 0 then pure { pre := false, spec := true } else pure (exact1 (← RP 0) [1 / coeff (norm A) 0])
+  | "shiftin" => do let A ← P 0; let sft ← N 1; pure (exact1 (← RP 0) (zeros sft.toNat ++ A))
+  | "modpowxin" => do
+    let A ← P 0; let l ← N 1
+    if l < 0 then pure { pre := false, spec := true } else
+    pure (exact1 (← RP 0) (A.take l.toNat) (some (Givaro.Model.Poly.modpowx A l.toNat)))
+  | "wrappers" => do
+    let A ← P 0
+    let ch ← r[0]? >>= parseHexNat; let cd ← r[1]? >>= parseHexInt; let dm ← r[2]? >>= parseHexInt
+    let raw ← r[3]? >>= parsePoly; let d ← r[4]? >>= parseHexInt
+    pure { spec := ch == FieldIO.card K && cd == 0 && dm == 1 && raw = norm A && d == sdeg A }
+  -- the range forms: all n places of the R range are the contract
+  | "rmul" | "rstdmul" | "rkaramul" => do
+    let n ← N 0; let A ← P 1; let B ← P 2; let raw ← r[0]? >>= parsePoly
+    if A.isEmpty || B.isEmpty || n < 1 then pure { pre := false, spec := true } else
+    let nn := n.toNat
+    let want : List K := ((smul A B) ++ zeros nn).take nn
+    let fuel := A.length + B.length
+    let m : List K :=
+      if key == "rmul" then Givaro.Model.Poly.pad nn (Givaro.Model.Poly.mulR thr fuel nn A B)
+      else if key == "rstdmul" then Givaro.Model.Poly.pad nn (Givaro.Model.Poly.stdmulR nn A B)
+      else Givaro.Model.Poly.pad nn (Givaro.Model.Poly.karaStep (Givaro.Model.Poly.mulR thr fuel) nn A B)
+    pure { spec := raw = want, model := raw = m, info := renderPoly m }
+  | "rsqr" => do
+    let A ← P 0; let raw ← r[0]? >>= parsePoly
+    if A.isEmpty then pure { pre := false, spec := true } else
+    let nn := 2 * A.length - 1
+    let want : List K := ((smul A A) ++ zeros nn).take nn
+    let m : List K := Givaro.Model.Poly.pad nn (Givaro.Model.Poly.sqrR thr (1 + 1) A.length A)
+    pure { spec := raw = want, model := raw = m, info := renderPoly m }
+  | "rmidmul" | "rstdmidmul" | "rkaramidmul" => do
+    let n ← N 0; let A ← P 1; let B ← P 2; let raw ← r[0]? >>= parsePoly
+    if B.isEmpty || A.length < B.length || n < 1 then pure { pre := false, spec := true } else
+    let nn := n.toNat
+    let want : List K := smulWindow A B (B.length - 1) nn
+    let fuel := A.length + B.length
+    let m : List K :=
+      if key == "rmidmul" then Givaro.Model.Poly.pad nn (Givaro.Model.Poly.midR thr fuel nn A B)
+      else if key == "rstdmidmul" then Givaro.Model.Poly.pad nn (Givaro.Model.Poly.stdmidmulR nn A B)
+      else Givaro.Model.Poly.pad nn (Givaro.Model.Poly.karamidStep (Givaro.Model.Poly.midR thr fuel) nn A B)
+    pure { spec := raw = want, model := raw = m, info := renderPoly m }
   -- interpolation / CRT through their defining identities
   | "interp" | "crt" => do
     let xs ← P 0; let fs ← P 1; let q ← RP 0
@@ -294,15 +373,37 @@ def polyCase (thr : Nat) (key : String) (a : Array String) (r : Array String) : 
     pure { spec := rs = xs.map (fun x => seval A x) }
   | "padic_eval" => do
     let A ← P 0; let e ← r[0]? >>= parseHexInt
-    if A.isEmpty then pure { pre := false, spec := true } else
     let p : Nat := FieldIO.card K
     let val : Nat := A.foldr (fun c acc => ((parseHexNat (FieldIO.render c)).getD 0) + p * acc) 0
-    pure { spec := e == (val : Int) }
+    let digs : List Nat := A.map (fun c => (parseHexNat (FieldIO.render c)).getD 0)
+    pure { spec := e == (val : Int), model := e == (Givaro.Model.Padic.eval p digs : Int) }
+  | "convertvec" => do
+    let A ← P 0; let rs ← r[0]? >>= parsePoly
+    pure { spec := rs = A }
+  | "interpgeom" => do
+    let A ← P 0; let n ← N 1; let q ← RP 0
+    if n < 1 || (norm A).length > n.toNat then pure { pre := false, spec := true } else
+    pure { spec := eqv q.1 A && degOk q }
+  | "padic_eval64" => do
+    let A ← P 0; let e ← r[0]? >>= parseHexInt
+    let p : Nat := FieldIO.card K
+    let digs : List Nat := A.map (fun c => (parseHexNat (FieldIO.render c)).getD 0)
+    pure { spec := e == (Givaro.Model.Padic.eval p digs : Int) }
+  | "padic_radixn" => do
+    let e ← a[0]? >>= parseHexNat; let n ← N 1; let q ← RP 0
+    let p : Nat := FieldIO.card K
+    if n < 1 || e ≥ p ^ n.toNat then pure { pre := false, spec := true } else
+    let val : Nat := q.1.foldr (fun c acc => ((parseHexNat (FieldIO.render c)).getD 0) + p * acc) 0
+    let digs : List Nat := q.1.map (fun c => (parseHexNat (FieldIO.render c)).getD 0)
+    let m := Givaro.Model.Padic.radixN p n.toNat e n.toNat
+    pure { spec := val == e && q.1 = norm q.1 && degOk q, model := digs == m, info := toString m }
   | "padic_radix" => do
     let e ← a[0]? >>= parseHexNat; let q ← RP 0
     let p : Nat := FieldIO.card K
     let val : Nat := q.1.foldr (fun c acc => ((parseHexNat (FieldIO.render c)).getD 0) + p * acc) 0
-    pure { spec := val == e && q.1 = norm q.1 && degOk q }
+    let digs : List Nat := q.1.map (fun c => (parseHexNat (FieldIO.render c)).getD 0)
+    pure { spec := val == e && q.1 = norm q.1 && degOk q, model := digs == Givaro.Model.Padic.radix p e,
+           info := toString (Givaro.Model.Padic.radix p e) }
   | _ => none
 
 def verdict (thr : Nat) (key : String) (a r : Array String) (line : String) : String :=
